@@ -819,11 +819,11 @@ def input_strategy():
 def option_strategy(weak=False):
     xsw = _forms("-x", FORMATS + FORMATS + ["none", "none"])
     mode = st.sampled_from([["-E"], ["-emit-qbe"], ["-S"], ["-c"]])
-    ppo = st.one_of(_forms("-D", ["x", "x=1", "FOO=a b", "y="]), _forms("-U", ["x", "__GNUC__"]), _forms("-I", ["inc", "/usr/include", "."]),
+    ppo = st.one_of(_forms("-D", ["x", "x=1", "FOO=a b", "y=", "-1=x", "-c"]), _forms("-U", ["x", "__GNUC__", "-u"]), _forms("-I", ["inc", "/usr/include", ".", "-gen", "-E", "--"]),
                     st.sampled_from([["-include", "cfg.h"], ["-include", "sub/p.h"], ["-nostdinc"]]),
                     st.lists(st.sampled_from(WARGS), min_size=1, max_size=3).map(lambda l: ["-Wp," + ",".join(l)]))
     aso = st.lists(st.sampled_from(WARGS), min_size=1, max_size=3).map(lambda l: ["-Wa," + ",".join(l)])
-    ldo = st.one_of(_forms("-L", ["lib", "/usr/lib", "."]), _forms("-l", ["m", "foo", ":libz.a", "sub/libq.a"]),
+    ldo = st.one_of(_forms("-L", ["lib", "/usr/lib", ".", "-libs", "-c"]), _forms("-l", ["m", "foo", ":libz.a", "sub/libq.a", "-x", "-o"]),
                     st.sampled_from([["-s"], ["-static"], ["-pthread"], ["-nostdlib"]]),
                     st.lists(st.sampled_from(WARGS), min_size=1, max_size=3).map(lambda l: ["-Wl," + ",".join(l)]))
     ign = st.sampled_from([["-g"], ["-O"], ["-O2"], ["-Os"], ["-pipe"], ["-pedantic"], ["-Wall"], ["-Wextra"], ["-v"], ["-v"]])
@@ -833,7 +833,7 @@ def option_strategy(weak=False):
     return st.one_of(*alts)
 
 
-OUTPUTS = [[]] * 10 + [["-o", "out"], ["-oout.o"], ["-o", "sub/out.x"], ["-oa.out"], ["-o", "res.s"], ["-o", "o"], ["-o", "-"], ["-o-"]]
+OUTPUTS = [[]] * 10 + [["-o", "out"], ["-oout.o"], ["-o", "sub/out.x"], ["-oa.out"], ["-o", "res.s"], ["-o", "o"], ["-o", "-"], ["-o-"], ["-o", "-prog"], ["-o", "-c"], ["-o-o"]]
 MODES = [[]] * 4 + [["-E"], ["-E"], ["-emit-qbe"], ["-emit-qbe"], ["-S"], ["-S"], ["-c"], ["-c"], ["-c", "-E"], ["-S", "-c"],
                     ["-E", "-emit-qbe"], ["-c", "-c"], ["-emit-qbe", "-S"]]
 BAD = [None] * 22 + ["unknown", "dangling", "noinput"]
